@@ -14,32 +14,51 @@ class Stub(Filter):
         return bool(self.box[0][self.i])
 
 
-def build(e, box):
+def leaf(obj_index):
+    from synth.syntax.program import Primitive
+    from synth.syntax.type_system import INT
+    return Primitive("o%d" % obj_index, INT)
+
+
+def dfta_filter(i, accepting, envs):
+    """A real DFTAFilter that answers envs[obj][i] on the leaf program of object obj."""
+    from synth.filter.dfta_filter import DFTAFilter
+    from synth.syntax.automata.tree_automaton import DFTA
+    rules = {}
+    for obj, env in enumerate(envs):
+        if bool(env[i]) == bool(accepting):
+            rules[(leaf(obj), ())] = 0
+    return DFTAFilter(DFTA(rules, {0}), accepting_dfta=bool(accepting))
+
+
+def build(e, box, bases=None, envs=None):
     k = e[0]
     if k == 0:
+        if bases is not None and bases[e[1]][0] == "dfta":
+            return dfta_filter(e[1], bases[e[1]][1], envs)
         return Stub(e[1], box)
     if k == 1:
-        return -build(e[1], box)
+        return -build(e[1], box, bases, envs)
     if k == 2:
-        return build(e[1], box) & build(e[2], box)
+        return build(e[1], box, bases, envs) & build(e[2], box, bases, envs)
     if k == 3:
-        return build(e[1], box) | build(e[2], box)
+        return build(e[1], box, bases, envs) | build(e[2], box, bases, envs)
     if k == 4:
-        return IntersectionFilter(*[build(x, box) for x in e[1:]])
+        return IntersectionFilter(*[build(x, box, bases, envs) for x in e[1:]])
     if k == 5:
-        return UnionFilter(*[build(x, box) for x in e[1:]])
-    return NegFilter(build(e[1], box))
+        return UnionFilter(*[build(x, box, bases, envs) for x in e[1:]])
+    return NegFilter(build(e[1], box, bases, envs))
 
 
 def impl(case):
     if case["kind"] == "algebra":
         e, envs = case["data"]
         box = [None]
-        f = build(e, box)
+        f = build(e, box, case.get("bases"), envs)
         out = []
-        for env in envs:
+        for obj, env in enumerate(envs):
             box[0] = env
-            out.append([1 if f.accept(object()) else 0, 1 if f.reject(object()) else 0])
+            out.append([1 if f.accept(leaf(obj)) else 0, 1 if f.reject(leaf(obj)) else 0])
         return out
     skip, inputs, seq = case["data"]
     ev = DSLEvaluator(O.semantics_dict(sorted(S.PRIMS)))
